@@ -299,7 +299,24 @@ Definition run_op (s : sf) (l : list N) : option (list N * sf * list N) :=
   | _ => None
   end.
 
-Fixpoint run_ops (fuel : nat) (s : sf) (l : list N) (out_rev : list (list N)) : list (list N) :=
+(* a collection opened read-only (mode 2): a write attempted through it faults in the mapping — the harness reports the
+   panic — and the stored documents do not change; what the handle keeps in memory afterwards is not modelled *)
+Definition mutating (l : list N) : bool :=
+  match l with
+  | c :: _ => (c =? 10) || (c =? 11) || (c =? 20) || (c =? 21) || (c =? 22)
+  | [] => false
+  end.
+
+Definition mode_after (ro : bool) (l out : list N) : bool :=
+  match l, out with
+  | 30 :: mode :: _, [30; 0] => mode =? 2
+  | 60 :: mode :: _, [60; 0] => mode =? 2
+  | 50 :: _, _ => false
+  | 40 :: _, _ => false
+  | _, _ => ro
+  end.
+
+Fixpoint run_ops (fuel : nat) (ro : bool) (s : sf) (l : list N) (out_rev : list (list N)) : list (list N) :=
   match l with
   | [] => frev out_rev
   | _ =>
@@ -307,7 +324,13 @@ Fixpoint run_ops (fuel : nat) (s : sf) (l : list N) (out_rev : list (list N)) : 
       | O => frev ([999] :: out_rev)
       | S f =>
           match run_op s l with
-          | Some (out, s', r) => run_ops f s' r (out :: out_rev)
+          | Some (out, s', r) =>
+              if ro && mutating l then
+                match out with
+                | code :: 0 :: _ => run_ops f ro s r ([code; 2] :: out_rev)
+                | _ => run_ops f ro s r (out :: out_rev)
+                end
+              else run_ops f (mode_after ro l out) s' r (out :: out_rev)
           | None => frev ([998] :: out_rev)
           end
       end
@@ -321,7 +344,7 @@ Definition initial_sf : sf :=
 
 (* engine 1: a history on a fresh span file.  Input and output are character codes. *)
 Definition run_store (toks : list N) : list N :=
-  flat_map show_line (run_ops (length toks) initial_sf toks []).
+  flat_map show_line (run_ops (length toks) false initial_sf toks []).
 
 Definition oracle_main (input : list N) : list N :=
   match tokenize input None [] with
